@@ -4,6 +4,7 @@ import (
 	"fmt"
 	"go/types"
 	"math"
+	"regexp"
 	"strings"
 )
 
@@ -86,11 +87,73 @@ func (ip *Interp) regexpCompileStub(s Str) Value {
 	return Tuple{Opaque{}, Iface{T: types.NewPointer(t), V: Ptr{C: c, O: ip.newObj(t, "syntax.Error")}}}
 }
 
+// regexpMatchesStub models FindAllStringSubmatchIndex by an arbitrary WELL-FORMED result: k <= K
+// matches, increasing and non-overlapping, 0 <= a <= b <= len(s), each capture group either (-1,-1)
+// or inside its match. The result is memoised per (regexp, subject) on a path so that the code under
+// check and the reference see the same engine answer.
 func (ip *Interp) regexpMatchesStub(re Opaque, s Str, n *Term) Value {
-	ip.unsupported("regexp matching on symbolic input")
-	return nil
+	w := ip.W
+	groups := 0
+	key := "re:"
+	switch r := re.V.(type) {
+	case *regexp.Regexp:
+		groups = r.NumSubexp()
+		key += r.String()
+	case *symRegexp:
+		groups = w.ex.Cfg.Params["REGROUPS"]
+		key += strKey(r.pattern)
+	default:
+		ip.unsupported("regexp receiver")
+	}
+	key += "|" + strKey(s)
+	if w.memo == nil {
+		w.memo = map[string]Value{}
+	}
+	if v, ok := w.memo[key]; ok {
+		return v
+	}
+	maxK := w.ex.Cfg.Params["REMATCHES"]
+	if maxK == 0 {
+		maxK = 2
+	}
+	k := w.Choose(maxK + 1)
+	tc := ip.TC
+	ln := i64(int64(s.Len()))
+	fresh := func() *Term {
+		v := w.freshVar(SBV64)
+		w.inputs = append(w.inputs, Input{Kind: "aux", Vars: []*Term{v}})
+		return v
+	}
+	var outer []Value
+	prevEnd := i64(0)
+	for i := 0; i < k; i++ {
+		a, b := fresh(), fresh()
+		w.addPC(tc.And(tc.SLe(prevEnd, a), tc.And(tc.SLe(a, b), tc.SLe(b, ln))))
+		if i > 0 {
+			// the engine always makes progress: a later match starts after the previous start
+			pa := outer[i-1].(Slice).A[0].(*Term)
+			w.addPC(tc.SLt(pa, a))
+		}
+		inner := []Value{a, b}
+		for g := 0; g < groups; g++ {
+			if w.Choose(2) == 0 {
+				inner = append(inner, i64(-1), i64(-1))
+				continue
+			}
+			ga, gb := fresh(), fresh()
+			w.addPC(tc.And(tc.SLe(a, ga), tc.And(tc.SLe(ga, gb), tc.SLe(gb, b))))
+			inner = append(inner, ga, gb)
+		}
+		outer = append(outer, Slice{A: inner, O: ip.newObj(types.Typ[types.Int], "regexp-stub")})
+		prevEnd = b
+	}
+	var res Value = Slice{}
+	if k > 0 {
+		res = Slice{A: outer, O: ip.newObj(nil, "regexp-stub")}
+	}
+	w.memo[key] = res
+	return res
 }
-
 // clockNow models time.now(): (sec int64, nsec int32, mono int64). The wall clock is an arbitrary
 // non-decreasing reading (fresh symbolic per call).
 func (ip *Interp) clockNow() Value {
